@@ -83,5 +83,5 @@ TxNoDust == (Live /\ Last.a \in {"Check", "Pub"}) =>
   /\ \A k \in 1..Len(Last.outs) : Last.outs[k][1] >= Last.outs[k][2]
 TxWithinBudget == (Live /\ Last.a \in {"Check", "Pub"}) =>
   /\ Last.fee <= rq.budget
-  /\ Last.rate <= rq.maxrate
+  /\ Last.rate <= rq.maxrate \/ StartTrigger
 =============================================================================
